@@ -203,7 +203,7 @@ func observeOpen(img *vstor.Stor, k koOpts, ro bool) (obs *koObs, after *vstor.S
 		}
 	}
 	// the batches kept from the journals the recovery read, in the order it read them
-	obs.keptKnown = true
+	obs.keptKnown = k.jck
 	cur := stSeq
 	for _, fd := range opened {
 		data, _, ok := img.FileBytes(fd)
@@ -305,7 +305,7 @@ func genOpenWorkload(r *vlib.RNG) *wl.Workload {
 	cfg.Snappy, cfg.FilterBits, cfg.NoSync = false, 0, false
 	cfg.CmpID = []int{0, 0, 0, 1, 2}[r.Intn(5)]
 	cfg.MaxManifest = int64([]int{0, 0, 1, 512}[r.Intn(4)])
-	cfg.WriteBuffer = []int{512, 1024, 2048}[r.Intn(3)]
+	cfg.WriteBuffer = []int{512, 1024, 4096, 16384}[r.Intn(4)]
 	cfg.BlockSize = []int{64, 256, 1024, 4096}[r.Intn(4)]
 	cfg.BlockCache = -1
 	pool := dbh.GenPool(r, r.Range(4, 14), false)
@@ -320,9 +320,9 @@ func genOpenWorkload(r *vlib.RNG) *wl.Workload {
 				recs = append(recs, dbh.Rec{Del: true, K: k})
 				continue
 			}
-			n := r.Range(0, 40)
-			if r.Chance(1, 6) {
-				n = r.Range(150, 420)
+			n := r.Range(0, 60)
+			if r.Chance(1, 5) {
+				n = r.Range(150, 600)
 			}
 			v := []byte(fmt.Sprintf("v%d.", tag))
 			for len(v) < n {
@@ -332,7 +332,7 @@ func genOpenWorkload(r *vlib.RNG) *wl.Workload {
 		}
 		return recs
 	}
-	nsteps := r.Range(12, 45)
+	nsteps := r.Range(15, 110)
 	for len(w.Steps) < nsteps {
 		switch r.Pick(50, 5, 3, 6, 2) {
 		case 0:
@@ -501,7 +501,10 @@ func kOpenCases(root *vlib.RNG, res *vlib.Result, want, maxBytes, maxText int) (
 			}
 		}
 		pts = append(pts, n)
-		per := 2
+		for t := 0; t < 6 && n > out.openIdx; t++ {
+			pts = append(pts, r.Range(out.openIdx, n))
+		}
+		per := 3
 		for t := 0; t < per && len(cases) < want; t++ {
 			c := pts[r.Intn(len(pts))]
 			if c > n {
@@ -518,6 +521,10 @@ func kOpenCases(root *vlib.RNG, res *vlib.Result, want, maxBytes, maxText int) (
 			}
 			if r.Chance(1, 8) {
 				k.strictJ = true
+			}
+			if r.Chance(1, 10) {
+				// without journal checksums a torn tail may be read as records: outside the property, inside the model
+				k.jck = false
 			}
 			nested, npol := -1, 0
 			if r.Chance(1, 4) {
@@ -539,6 +546,9 @@ func kOpenCases(root *vlib.RNG, res *vlib.Result, want, maxBytes, maxText int) (
 			}
 			text, pmsg := openCase(img, k, res, maxBytes, maxText)
 			img.Discard()
+			if !k.jck {
+				pmsg = ""
+			}
 			if pmsg != "" && nviol < 3 {
 				nviol++
 				res.Violate(fmt.Sprintf("%s [crash after op %d of %d, policy %s, vanish=%v, nested=%d; reopened with wbuf=%d maxman=%d strictJ=%v; %s]",
